@@ -638,6 +638,44 @@ def r5(ctx):
     C05_shared.writer_finalisation(ctx, 'C05-R5')
 
 
+def _rg_written_for_every_fragment(ctx, wt):
+    """Fragment.write_tags run by the interpreter for every outcome of the tests it makes (valid span, safe span, valid fragment): RG is set, to the value of get_read_group(),
+    in every case.  (ok, cases, witness) or None outside the interpreted subset."""
+    import itertools
+    from ..consteval import run_function, Unfoldable, Raised
+    n = 0
+    try:
+        for span_ok, safe, valid in itertools.product((True, False), repeat=3):
+            metas = []
+
+            def hook(ev, call, env, metas=metas):
+                d = dotted(call.func) or ''
+                if not d.startswith('self.'):
+                    return NotImplemented
+                a = [ev.ev(x, env) for x in call.args]
+                m_ = d[5:]
+                if m_ == 'set_meta':
+                    metas.append((a[0], a[1]))
+                    return None
+                if m_ == 'has_valid_span':
+                    return span_ok
+                if m_ == 'is_valid':
+                    return valid
+                if m_ == 'get_read_group':
+                    return '<read group>'
+                return f'<{m_}>'
+            env = {'self.safe_span': safe, 'self.span': ('chr1', 10, 90), 'self.mapping_quality': 40, 'self.is_multimapped': False, 'self.qcfail': not valid}
+            run_function(wt, [[]], env=env, call_hook=hook, budget=5000)
+            n += 1
+            rg = [v for k, v in metas if k == 'RG']
+            if rg != ['<read group>']:
+                return False, n, {'span valid': span_ok, 'safe span': safe, 'fragment valid': valid, 'RG written': rg, 'tags written': [k for k, v in metas]}
+        return True, n, None
+    except (Unfoldable, Raised, Exception):
+        return None
+
+
+
 @rule('C05', 'C05-R6', 'read groups: the id registered for the header and the RG tag written to the reads come from the same function, and '
                        'both tagging loops register the read group of every fragment of every written molecule')
 def r6(ctx):
@@ -661,7 +699,13 @@ def r6(ctx):
     wt = ctx.fn(FRAGMENT, 'Fragment.write_tags')
     ok = any(isinstance(c, ast.Call) and isinstance(c.func, ast.Attribute) and c.func.attr == 'set_meta' and len(c.args) == 2 and
              isinstance(c.args[0], ast.Constant) and c.args[0].value == 'RG' and src(c.args[1]) == 'self.get_read_group()' for c in walk_no_nested(wt))
-    ctx.emit('C05-R6', ok, FRAGMENT, wt, 'Fragment.write_tags writes RG = self.get_read_group()', key='rg-tag-source')
+    model = _rg_written_for_every_fragment(ctx, wt)
+    if model is None:
+        ctx.emit('C05-R6', ok, FRAGMENT, wt, 'Fragment.write_tags writes RG = self.get_read_group()', key='rg-tag-source')
+    else:
+        ctx.emit('C05-R6', model[0], FRAGMENT, wt, f'Fragment.write_tags writes RG = self.get_read_group() in all {model[1]} model cases (span valid or not, safe or not, fragment valid or not)' if model[0] else
+                 f'Fragment.write_tags leaves a fragment without its read group: {model[2]} - the record keeps the RG of the input (none, or an id the new header does not declare)', key='rg-tag-source',
+                 witness=model[2], what='Fragment.write_tags does not write RG for every fragment')
     wp = ctx.fn(FRAGMENT, 'Fragment.write_pysam')
     calls = [src(c.func) for c in walk_no_nested(wp) if isinstance(c, ast.Call)]
     loops = [l for l in walk_no_nested(wp) if isinstance(l, ast.For) and src(l.iter) == 'self']
